@@ -371,7 +371,7 @@ func pcWrite(path string, tree *ptMode) error {
 	for _, fn := range g.fns {
 		seen := map[*pcFn]bool{}
 		fn := fn
-		ast.Inspect(body(fn), func(m ast.Node) bool {
+		walkWithHelpers(body(fn), fn.pkg, func(tf *types.Func) bool { return g.byObj[tf] != nil }, func(m ast.Node) bool {
 			call, ok := m.(*ast.CallExpr)
 			if !ok {
 				return true
